@@ -5,6 +5,8 @@ EXTENDS Sorter
 EcusVal == {"A", "B"}
 LcOfEcuVal == [e \in {"A", "B"} |-> IF e = "A" THEN {1, 2} ELSE {3}]
 LcStartVal == (1 :> 100) @@ (2 :> 190) @@ (3 :> 150)
+\* sub-tick config (1 tick = 50 us, timestamps on a 2-tick grid): lifecycles 2 and 3 start an odd number of ticks off lifecycle 1
+LcStartSub == (1 :> 100) @@ (2 :> 191) @@ (3 :> 151)
 \* a single ECU switching between two lifecycles (deeper behaviours for the W = 3 window roll-over)
 EcusOne == {"A"}
 LcOfEcuOne == [e \in {"A"} |-> {1, 2}]
@@ -13,4 +15,6 @@ LcOfEcuOne == [e \in {"A"} |-> {1, 2}]
 RxBack == {-1, 0, 1, 3}
 DelaysFull == {-1, 0, 1, 2, 5}
 DelaysSmall == {-1, 0, 2, 5}
+\* sub-tick config: raw delays in 50 us ticks: capped (-1, -2), none, 50..200 us (D = 4 ticks), beyond (6)
+DelaysSubVal == {-2, -1, 0, 1, 2, 3, 4, 6}
 =============================================================================
